@@ -435,7 +435,7 @@ func ruleGL3(c *Ctx) *rule {
 			switch x := v.(type) {
 			case *ssa.Call:
 				n := calleeName(x.Common())
-				if n != "builtin.append" && n != "builtin.len" && !strings.HasPrefix(n, modPath) && !strings.HasPrefix(n, "("+modPath) && !strings.HasPrefix(n, "(*"+modPath) {
+				if n != "builtin.append" && n != "builtin.len" && !elementPreserving(n) && !strings.HasPrefix(n, modPath) && !strings.HasPrefix(n, "("+modPath) && !strings.HasPrefix(n, "(*"+modPath) {
 					transformed = n
 				}
 			case *ssa.BinOp:
@@ -794,6 +794,24 @@ func (c *Ctx) emptyPlaceholdersStored() bool {
 					}
 				}
 			}
+		}
+	}
+	return false
+}
+
+// elementPreserving: a library function that rearranges or copies a collection without changing any element.
+func elementPreserving(n string) bool {
+	for _, pfx := range []string{"slices.", "maps."} {
+		if !strings.HasPrefix(n, pfx) {
+			continue
+		}
+		base := strings.TrimPrefix(n, pfx)
+		if i := strings.IndexByte(base, '['); i >= 0 {
+			base = base[:i]
+		}
+		switch base {
+		case "Concat", "Clone", "Sorted", "SortedFunc", "SortedStableFunc", "Collect", "Values", "Keys", "All", "Compact", "CompactFunc", "Grow", "Clip", "Reverse", "Sort", "SortFunc", "SortStableFunc", "AppendSeq":
+			return true
 		}
 	}
 	return false
